@@ -250,7 +250,7 @@ def main():
             def cnt(prefix):
                 ids = [b for b in br if b.startswith(prefix)]
                 return sum(1 for b in ids if br[b].get("alarms")), len(ids)
-            f.write("\n# Independently written behaviour-preserving refactors (BN-*, BN2-*, BN3-*, BN4-*, BN5-*)\n\n"
+            f.write("\n# Independently written behaviour-preserving refactors (BN-*, BN2-*, BN3-*, BN4-*, BN5-*, BN6-*)\n\n"
                     "Sixty refactors (three per property) written the same way, with the opposite brief: change the code that implements the\n"
                     "property as a maintainer would (extract helpers, change loop idioms, rename, merge or split functions, tables for switches)\n"
                     "without changing behaviour.  Each directory holds `patch.diff` and the author's `README.agent.md`.  Any alarm on one of them is a\n"
@@ -267,7 +267,11 @@ def main():
                     "A fifth set, BN5-*, refactors the support code instead of the function the property names first: helper signatures changed and\n"
                     "every caller adapted, helpers split, merged, moved between files or replaced by the standard-library equivalent, tables turned into\n"
                     "functions, package state initialised in var declarations instead of init functions: 8 of 20 alarmed when first run (DESIGN.md §11.11).\n"
-                    f"Now: BN-* {cnt('BN-')[0]}/{cnt('BN-')[1]}, BN2-* {cnt('BN2-')[0]}/{cnt('BN2-')[1]}, BN3-* {cnt('BN3-')[0]}/{cnt('BN3-')[1]}, BN4-* {cnt('BN4-')[0]}/{cnt('BN4-')[1]}, BN5-* {cnt('BN5-')[0]}/{cnt('BN5-')[1]} alarm.\n")
+                    "A sixth set, BN6-*, is the performance-minded commit: correct fast paths and early exits in front of the general code, preallocation,\n"
+                    "fused passes, hoisted invariants, specialised inline code, each checked bit for bit by its author with a differential harness:\n"
+                    "9 of 20 alarmed when first run, three with a rule claiming a violation; 4 still do, as undecided (inlined float arithmetic where the\n"
+                    "models place their oracles, and a fast path that reproduces the external clipper's answer): DESIGN.md §11.14.\n"
+                    f"Now: BN-* {cnt('BN-')[0]}/{cnt('BN-')[1]}, BN2-* {cnt('BN2-')[0]}/{cnt('BN2-')[1]}, BN3-* {cnt('BN3-')[0]}/{cnt('BN3-')[1]}, BN4-* {cnt('BN4-')[0]}/{cnt('BN4-')[1]}, BN5-* {cnt('BN5-')[0]}/{cnt('BN5-')[1]}, BN6-* {cnt('BN6-')[0]}/{cnt('BN6-')[1]} alarm.\n")
     print(len(rows), "meta files written")
 
 if __name__ == "__main__":
